@@ -181,11 +181,41 @@ pub(super) fn optimize(
     .cloned()
     .collect_vec();
 
+  #[cfg(samlang_verif)]
+  verif::record(
+    optimizable_while_loop.basic_induction_variable_with_loop_guard.guard_operator,
+    &only_relevant_induction_loop_variables.multiplier,
+  );
+
   Some(LoopInductionVariableEliminationResult {
     prefix_statements,
     new_basic_induction_variable_with_loop_guard,
     new_derived_induction_variables,
   })
+}
+
+/// Verification hook (only with `--cfg samlang_verif`): a log of the eliminations performed,
+/// as (guard operator of the replaced guard: 0 LT, 1 LE, 2 GT, 3 GE; constant multiplier if any).
+#[cfg(samlang_verif)]
+pub(crate) mod verif {
+  use super::super::loop_induction_analysis::{GuardOperator, PotentialLoopInvariantExpression};
+  use std::sync::Mutex;
+
+  pub(crate) static LOG: Mutex<Vec<(u8, Option<i32>)>> = Mutex::new(Vec::new());
+
+  pub(super) fn record(op: GuardOperator, multiplier: &PotentialLoopInvariantExpression) {
+    let op = match op {
+      GuardOperator::LT => 0,
+      GuardOperator::LE => 1,
+      GuardOperator::GT => 2,
+      GuardOperator::GE => 3,
+    };
+    let m = match multiplier {
+      PotentialLoopInvariantExpression::Int(i) => Some(*i),
+      PotentialLoopInvariantExpression::Var(_) => None,
+    };
+    LOG.lock().unwrap().push((op, m));
+  }
 }
 
 #[cfg(test)]
